@@ -53,7 +53,10 @@ impl LocalTypingContext {
   pub(super) fn get_captured(&self, lambda_loc: &Location) -> HashMap<PStr, Arc<Type>> {
     let mut map = HashMap::new();
     for (name, loc) in self.ssa_analysis_result.lambda_captures.get(lambda_loc).unwrap() {
-      map.insert(*name, self.type_map.get(loc).unwrap().dupe());
+      // A definition from a recovered part of the syntax tree may never have been given a type.
+      if let Some(t) = self.type_map.get(loc) {
+        map.insert(*name, t.dupe());
+      }
     }
     map
   }
